@@ -260,6 +260,7 @@ func NewResettableKeystore(d ds.Batching, opts ...ResettableKeystoreOption) (*Re
 			requests:   make(chan operation),
 			close:      make(chan struct{}),
 			done:       make(chan struct{}),
+			closed:     make(chan struct{}),
 			logger:     logger,
 		},
 		metaDs:          d,
@@ -844,43 +845,46 @@ loop:
 // alternate datastores are closed since they are owned by the keystore.
 // The metaDs is not closed because it is owned by the caller.
 func (s *ResettableKeystore) Close() (err error) {
-	select {
-	case <-s.close:
-		// Already closed
-	default:
-		close(s.close)
-		<-s.done // Wait for worker to exit (no new buffer appends after this).
-		// Wait for any in-flight altDs write from ResetCids to finish.
-		// We never release the token, so subsequent ResetCids callers fall
-		// through on <-s.done.
-		<-s.altDsBusy
+	if !s.closing.CompareAndSwap(false, true) {
+		// Not the first call. Return nil as before, but only once the first
+		// call has finished: never while the worker is still running.
+		<-s.closed
+		return nil
+	}
+	defer close(s.closed)
 
-		// In factory mode, defer closing owned datastores (primary and alt)
-		// so they are closed even if persistSize/Sync fails. The metaDs
-		// is not closed here because it is owned by the caller.
-		if s.createDs != nil {
-			defer func() {
-				if cerr := s.ds.Close(); cerr != nil {
-					err = errors.Join(err, fmt.Errorf("error closing primary datastore: %w", cerr))
-				}
-				// altDs is nil between resets; only close if a reset was in
-				// progress when Close was called.
-				if s.altDs != nil {
-					if cerr := s.altDs.Close(); cerr != nil {
-						err = errors.Join(err, fmt.Errorf("error closing alt datastore: %w", cerr))
-					}
-				}
-			}()
-		}
+	close(s.close)
+	<-s.done // Wait for worker to exit (no new buffer appends after this).
+	// Wait for any in-flight altDs write from ResetCids to finish.
+	// We never release the token, so subsequent ResetCids callers fall
+	// through on <-s.done.
+	<-s.altDsBusy
 
-		if err = s.persistSize(); err != nil {
-			err = fmt.Errorf("error persisting size on close: %w", err)
-			return
-		}
-		if err = s.ds.Sync(context.Background(), sizeKey); err != nil {
-			err = fmt.Errorf("error syncing size on close: %w", err)
-			return
-		}
+	// In factory mode, defer closing owned datastores (primary and alt)
+	// so they are closed even if persistSize/Sync fails. The metaDs
+	// is not closed here because it is owned by the caller.
+	if s.createDs != nil {
+		defer func() {
+			if cerr := s.ds.Close(); cerr != nil {
+				err = errors.Join(err, fmt.Errorf("error closing primary datastore: %w", cerr))
+			}
+			// altDs is nil between resets; only close if a reset was in
+			// progress when Close was called.
+			if s.altDs != nil {
+				if cerr := s.altDs.Close(); cerr != nil {
+					err = errors.Join(err, fmt.Errorf("error closing alt datastore: %w", cerr))
+				}
+			}
+		}()
+	}
+
+	if err = s.persistSize(); err != nil {
+		err = fmt.Errorf("error persisting size on close: %w", err)
+		return
+	}
+	if err = s.ds.Sync(context.Background(), sizeKey); err != nil {
+		err = fmt.Errorf("error syncing size on close: %w", err)
+		return
 	}
 	return
 }
